@@ -508,6 +508,27 @@ def carry_chain(cx, rule, crates, floor, only=None, exclude=()):
             cx.violate(rule, '%s/%s-after' % (fn.short, last(t['fn']['name'])),
                        'carry chain: %s adds the carry-in to the result of a flagged %s with an unflagged %s; when that result is all ones the wrap is in no flag and the carry-out of the limb is lost'
                        % (fn.short, last(strip(other.args[0]).name), last(t['fn']['name'])), G.where(fn, b))
+        # the same with the plain operators (`s + c1`): wraps silently in release builds, panics in debug builds
+        for b, bl in enumerate(fn.blocks):
+            t = bl['term']
+            if t['k'] != 'assert' or not t['kind'].startswith(('Overflow(Add', 'Overflow(Sub')) or bl.get('cleanup'):
+                continue
+            ops = [norm(P.operand(o, b, len(bl['stmts']))) for o in t['ops'][:2]]
+            cs = [i for i, x in enumerate(ops) if _is_carry(x)]
+            if len(ops) != 2 or len(cs) != 1:
+                continue
+            other = strip(ops[1 - cs[0]])
+            if not (other.k == 'field' and other.name == '0' and other.args and strip(other.args[0]).k == 'call'
+                    and last(strip(other.args[0]).name or '') in ('overflowing_add', 'overflowing_sub')):
+                continue
+            if fa is None:
+                fa = L.FnAnalysis(L.Analyzer(F), fn)
+            if fa.iv(other, b)[1] < L.ty_range((other.ty or 'u64'))[1]:
+                continue
+            bad += 1
+            cx.violate(rule, '%s/op-after' % fn.short,
+                       'carry chain: %s adds the carry-in to the result of a flagged %s with a plain operator; when that result is all ones the operation overflows (panic in debug builds, lost carry in release builds)'
+                       % (fn.short, last(strip(other.args[0]).name)), G.where(fn, b))
     cx.floor(rule, 'sites', n, floor, 'overflowing_add/overflowing_sub sites examined for folded carries')
     if not bad:
         cx.hold(rule, 'chains', 'no overflowing_add/overflowing_sub among %d sites takes a `limb +/- carry` operand that was computed without its own flag' % n)
